@@ -41,6 +41,12 @@ def check(ctx):
         "quad integrates from the reference (standard) pressure up to the requested pressure: zero at the reference, positive above",
         signature="quad limits", a=str(lo), b=str(hi),
     )
+    from .common import check_tolerances
+
+    check_tolerances(
+        ctx, "C08-f", qh + ":quad tolerances", where, a, {"epsabs": ("max", "1e-6"), "epsrel": ("max", "1e-6"), "limit": ("min", 50)},
+        "the adaptive quadrature keeps its default (1.49e-8) or explicit tolerances of at most 1e-6 and at least 50 subintervals: the three routes agree to quadrature accuracy",
+    )
     fv = a.get("func")
     if not isinstance(fv, FuncV):
         raise AnalysisError(f"{qh}: the quad integrand is not a local function")
